@@ -78,6 +78,30 @@ def eval_case(case):
         want = select_model(pr.tb, rows, task, case["latest"])
         if len(want) >= 2:
             out["nontrivial"] = True
+        if case.get("stale_archive_index"):
+            # an earlier `cond archive` that was SIGKILLed while tar was running leaves its scratch
+            # index (cond-out/version_index_archive.sqlite) behind
+            import signal as _sig
+            stale = os.path.join(pr.root, "cond-out", "version_index_archive.sqlite")
+            st = {"killed": False}
+
+            def killer(pid):
+                if st["killed"]:
+                    return
+                try:
+                    kids = open("/proc/%d/task/%d/children" % (pid, pid)).read().split()
+                except OSError:
+                    kids = []
+                if kids and os.path.exists(stale) and os.path.getsize(stale) > 0:
+                    st["killed"] = True
+                    os.kill(pid, _sig.SIGKILL)
+
+            pr.cond(["archive", "-o", os.path.join(sc.root, "killed.tar.gz")], timeout=60, poll=killer)
+            if not os.path.exists(stale):
+                # tar was faster than the poll loop: reproduce the leftover directly (same content)
+                import shutil as _sh
+                _sh.copy(os.path.join(pr.root, "cond-out", "version_index.sqlite"), stale)
+            out["reach"]["c11_stale_archive_index_cases"] = 1
         src_before = statecheck.full_snapshot(os.path.join(pr.root, "cond-out"))
         # ---- archive
         odir = os.path.join(sc.root, "archives")
@@ -96,6 +120,8 @@ def eval_case(case):
         bump("c11_archives")
         if "Traceback" in r.err:
             key = "C11:archive-crashes-on-shared-dependency" if "IntegrityError" in r.err else "C11:archive-traceback"
+            if case.get("stale_archive_index") and "IntegrityError" in r.err:
+                key = "C11:stale-archive-index-of-a-killed-archive-reused"
             out["violations"].append({"key": key, "msg": "cond %s: %s" % (" ".join(argv), r.err[-600:]), "witness": W})
             return out
         if not want:
@@ -119,7 +145,7 @@ def eval_case(case):
         # source unchanged
         src_after = statecheck.full_snapshot(os.path.join(pr.root, "cond-out"))
         rel_a = os.path.relpath(apath, os.path.join(pr.root, "cond-out"))
-        diff = sorted(k for k in set(src_before) | set(src_after) if src_before.get(k) != src_after.get(k) and k != rel_a and not k.startswith("version_index.sqlite"))
+        diff = sorted(k for k in set(src_before) | set(src_after) if src_before.get(k) != src_after.get(k) and k != rel_a and not k.startswith("version_index.sqlite") and k != "version_index_archive.sqlite")
         bump("c11_source_unchanged_checks")
         if diff or pr.rows() != rows:
             out["violations"].append({"key": "C11:archive-changed-source-project", "msg": "archiving changed the source project: %s; rows equal: %s" % (diff[:6], pr.rows() == rows), "witness": W})
@@ -183,7 +209,7 @@ def main(tier, n=None):
     for i in range(total):
         cases.append({"seed": rng.randrange(1 << 30), "nruns": rng.randint(1, 4), "task": rng.choice([None, None, "//:g", "//:dd", "//a/b:e3", "//:k", "//c-d:e4", "//:d1", "//a:c1"]),
                       "latest": rng.random() < 0.4, "out": rng.choice(["file", "dir", "default"]), "into": rng.choice(["clean", "clone"]), "git": rng.random() < 0.4,
-                      "dangling": rng.random() < 0.25, "foreign": rng.random() < 0.35})
+                      "dangling": rng.random() < 0.25, "foreign": rng.random() < 0.35, "stale_archive_index": rng.random() < 0.3})
     cli.warm()
     res = common.parallel_map(eval_case, cases, timeout=900)
     rep.merge_pool(res, cases)
